@@ -47,11 +47,12 @@ type HTTP struct {
 	Srv *httptest.Server
 	tls bool
 
-	mu     sync.Mutex
-	recs   []Rec
-	script func(seq int, r *Rec) Resp
-	connID atomic.Int64
-	conns  atomic.Int64 // connections accepted since Reset
+	mu       sync.Mutex
+	recs     []Rec
+	script   func(seq int, r *Rec) Resp
+	connID   atomic.Int64
+	conns    atomic.Int64 // connections accepted since Reset
+	connects atomic.Int64 // CONNECT tunnels opened since Reset
 }
 
 func NewHTTP(useTLS bool) *HTTP {
@@ -88,6 +89,7 @@ func (h *HTTP) Reset(script func(seq int, r *Rec) Resp) {
 	h.script = script
 	h.mu.Unlock()
 	h.conns.Store(0)
+	h.connects.Store(0)
 }
 
 func (h *HTTP) Records() []Rec {
@@ -99,7 +101,65 @@ func (h *HTTP) Records() []Rec {
 // ConnsAccepted is the number of connections accepted since Reset.
 func (h *HTTP) ConnsAccepted() int64 { return h.conns.Load() }
 
+// oneConn is a listener that hands out one already accepted connection (the tunnel of a CONNECT request).
+type oneConn struct {
+	c    net.Conn
+	once sync.Once
+	done chan struct{}
+}
+
+func (l *oneConn) Accept() (net.Conn, error) {
+	var c net.Conn
+	l.once.Do(func() { c = l.c })
+	if c != nil {
+		return c, nil
+	}
+	<-l.done
+	return nil, net.ErrClosed
+}
+func (l *oneConn) Close() error   { return nil }
+func (l *oneConn) Addr() net.Addr { return l.c.LocalAddr() }
+
+type closeNotifyConn struct {
+	net.Conn
+	closed func()
+}
+
+func (c closeNotifyConn) Close() error { c.closed(); return c.Conn.Close() }
+
+// tunnel answers a CONNECT request with 200 and then serves HTTP on the same connection with the same recording
+// handler (the connect gun names the target itself as the tunnel's destination). The CONNECT itself is not recorded
+// as a request; the tunnelled requests carry the connection id of the tunnel.
+func (h *HTTP) tunnel(w http.ResponseWriter, r *http.Request) {
+	hj, ok := w.(http.Hijacker)
+	if !ok {
+		w.WriteHeader(http.StatusInternalServerError)
+		return
+	}
+	c, bufrw, err := hj.Hijack()
+	if err != nil {
+		return
+	}
+	h.connects.Add(1)
+	_, _ = bufrw.WriteString("HTTP/1.1 200 Connection established\r\n\r\n")
+	_ = bufrw.Flush()
+	id, _ := r.Context().Value(connKey{}).(int64)
+	var once sync.Once
+	l := &oneConn{done: make(chan struct{})}
+	l.c = closeNotifyConn{Conn: c, closed: func() { once.Do(func() { close(l.done) }) }}
+	srv := &http.Server{Handler: http.HandlerFunc(h.handle),
+		ConnContext: func(ctx context.Context, _ net.Conn) context.Context { return context.WithValue(ctx, connKey{}, id) }}
+	_ = srv.Serve(l)
+}
+
+// Connects is the number of CONNECT tunnels opened since Reset.
+func (h *HTTP) Connects() int64 { return h.connects.Load() }
+
 func (h *HTTP) handle(w http.ResponseWriter, r *http.Request) {
+	if r.Method == http.MethodConnect {
+		h.tunnel(w, r)
+		return
+	}
 	body, _ := io.ReadAll(r.Body)
 	id, _ := r.Context().Value(connKey{}).(int64)
 	rec := Rec{Method: r.Method, RequestURI: r.RequestURI, Host: r.Host, Header: r.Header.Clone(), Body: body,
